@@ -96,8 +96,12 @@ theorem slots_step_inv (fin : Bool) (n : Nat) (σ : Slots) (e : SlotEv) (σ' : S
       · cases hs
     · cases hs
 
+/-- bridge to the generated constructor loop: `concurrent` slots are created -/
+theorem slotCount_eq (n : Nat) : Gen.slotCount n = n := by
+  unfold Gen.slotCount; omega
+
 theorem slots_init_inv (n : Nat) : SlotsInv n (Slots.init n) := by
-  simp [SlotsInv, Slots.init]
+  simp [SlotsInv, Slots.init, slotCount_eq]
 
 /-- with the release in `finally` nothing ever leaks -/
 theorem slots_step_noleak (σ : Slots) (e : SlotEv) (σ' : Slots)
